@@ -814,6 +814,53 @@ pub fn spellings() -> ListFamily {
     ListFamily { name: "spellings/u0 (every word of 2-4 letters over {a,b} spelled in several ways: intersections, differences, unions, prefixes)".into(), u, items, shallow: 0 }
 }
 
+/// two loops over the same body with different counters, combined: X^[a,b] & X^[c,d] is X^([a,b] & [c,d]) only when
+/// the words of X cannot be split in two ways; bodies here can (a + aa, eps + b, not-a, sigma* a, a?)
+pub fn same_body_loops() -> ListFamily {
+    let u = Universe::new(0);
+    let r = |l: u8, h: u8| Rc::new(P::Rng(l, h));
+    let (a, b) = (r(1, 1), r(2, 2));
+    let bodies: Vec<Rc<P>> = vec![
+        Rc::new(P::Union(a.clone(), Rc::new(P::Concat(a.clone(), a.clone())))),
+        Rc::new(P::Union(Rc::new(P::Eps), b.clone())),
+        Rc::new(P::Comp(a.clone())),
+        Rc::new(P::Concat(Rc::new(P::All), a.clone())),
+        Rc::new(P::Opt(a.clone())),
+        Rc::new(P::Union(a.clone(), b.clone())),
+        Rc::new(P::Concat(a.clone(), Rc::new(P::Star(b.clone())))),
+        r(1, 2),
+        Rc::new(P::Plus(a.clone())),
+    ];
+    let counters: Vec<(u32, Option<u32>)> = vec![(2, Some(2)), (3, Some(3)), (1, Some(2)), (2, Some(3)), (3, Some(4)), (0, Some(1)), (2, None), (1, None)];
+    let lp = |x: &Rc<P>, c: (u32, Option<u32>)| -> Rc<P> {
+        match c.1 {
+            Some(j) if j == c.0 => Rc::new(P::Pow(x.clone(), j)),
+            Some(j) => Rc::new(P::Loop(x.clone(), c.0, j)),
+            None => Rc::new(P::LoopInf(x.clone(), c.0)),
+        }
+    };
+    let mut items = vec![];
+    for x in &bodies {
+        for (i, &c1) in counters.iter().enumerate() {
+            for &c2 in counters.iter().skip(i + 1) {
+                let (l1, l2) = (lp(x, c1), lp(x, c2));
+                items.push(P::Inter(l1.clone(), l2.clone()));
+                items.push(P::Diff(l1.clone(), l2.clone()));
+                items.push(P::Diff(l2.clone(), l1.clone()));
+                items.push(P::Union(l1.clone(), l2.clone()));
+                items.push(P::Concat(l1, l2));
+            }
+        }
+        // a zero power and a zero loop of a loop
+        for &c in &counters {
+            items.push(P::Pow(lp(x, c), 0));
+            items.push(P::Loop(lp(x, c), 0, 0));
+            items.push(P::Concat(Rc::new(P::Pow(lp(x, c), 0)), a.clone()));
+        }
+    }
+    ListFamily { name: "same-body loops/u0 (X^[a,b] op X^[c,d] for nine bodies whose words split ambiguously, eight counters; zero powers of loops)".into(), u, items, shallow: 0 }
+}
+
 pub fn many_ranges() -> ListFamily {
     let u = Universe::new(3);
     let ch = |i: u8| Rc::new(P::Rng(i, i)); // regions 1..=12 are the letters
